@@ -32,7 +32,7 @@ class PythonTask(object):
 
         task = {'func'  : serialize_obj(func),
                 'args'  : args,
-                'kwargs': kwargs}
+                'kwargs': kwargs or {}}
 
         return serialize_bson(task)
 
